@@ -41,6 +41,48 @@ Definition prec_nat (o : operator) : nat :=
 
 Definition MAX_DEPTH : nat := 64.
 
+(* dispatch tables of parse_stmt and unray_expression, kept outside the
+   polymorphic section so that the big pattern matches are over plain data *)
+Inductive stmt_class : Set :=
+| SCSimple | SCVar | SCType | SCConst | SCBlock | SCGo | SCDefer | SCReturn | SCIf | SCSwitch
+| SCSelect | SCFor | SCSemi | SCBraceRight | SCBranch (k : keyword) | SCOther.
+
+Definition classify_stmt (tok : token) : stmt_class :=
+  match tok with
+  | TLiteral _ _ => SCSimple
+  | TKeyword KFunc | TKeyword KStruct | TKeyword KMap | TKeyword KChan
+  | TKeyword KInterface => SCSimple
+  | TOperator OAdd | TOperator OSub | TOperator OStar | TOperator OXor | TOperator OArrow
+  | TOperator ONot | TOperator OParenLeft | TOperator OBarackLeft => SCSimple
+  | TKeyword KVar => SCVar
+  | TKeyword KType => SCType
+  | TKeyword KConst => SCConst
+  | TOperator OBraceLeft => SCBlock
+  | TKeyword KGo => SCGo
+  | TKeyword KDefer => SCDefer
+  | TKeyword KReturn => SCReturn
+  | TKeyword KIf => SCIf
+  | TKeyword KSwitch => SCSwitch
+  | TKeyword KSelect => SCSelect
+  | TKeyword KFor => SCFor
+  | TOperator OSemiColon => SCSemi
+  | TOperator OBraceRight => SCBraceRight
+  | TKeyword KBreak => SCBranch KBreak
+  | TKeyword KFallThrough => SCBranch KFallThrough
+  | TKeyword KContinue => SCBranch KContinue
+  | TKeyword KGoto => SCBranch KGoto
+  | _ => SCOther
+  end.
+
+Inductive unary_class : Set := UCPlain | UCAnd | UCArrow | UCNone.
+Definition classify_unary (o : operator) : unary_class :=
+  match o with
+  | OStar | OAdd | OSub | ONot | OXor | OTiled => UCPlain
+  | OAnd => UCAnd
+  | OArrow => UCArrow
+  | _ => UCNone
+  end.
+
 Section Core.
 Variables (A G D C Cm E : Type).
 
@@ -48,9 +90,9 @@ Record ops : Type := {
   d_next : D -> G -> option A -> D;      (* comment loop of Parser::next *)
   d_goback : D -> D;                     (* Parser::goback's effect on the comment state *)
   d_drain : D -> C * D;                  (* drain_comments *)
-  d_line_end : D -> A -> G -> option A -> option Cm * G * D;   (* line_end_comment *)
+  (* line_end_comment: the field's docs come back with the trailing comment pushed, if any *)
+  d_line_end : D -> A -> G -> option A -> C -> C * G * D;
   c_empty : C;
-  c_push : C -> Cm -> C;
   a_plus2 : A -> A                       (* pos + 2 in parse_go_stmt / parse_defer_stmt *)
 }.
 Variable OPS : ops.
@@ -212,21 +254,21 @@ Definition drain (s : pstate) : C * pstate :=
 (* Parser::line_end_comment.  When the token after ';' is the end of input the
    Rust code leaves ';' current and the caller's skipped(';') moves on; here the
    move happens at once (same resulting state, see DESIGN 3.4). *)
-Definition line_end_comment (s : pstate) : res (option Cm) :=
-  if negb (cur_is s (KOp OSemiColon)) then Ok None s
+Definition line_end_comment (c : C) (s : pstate) : res C :=
+  if negb (cur_is s (KOp OSemiColon)) then Ok c s
   else
     let semi := cur_pos s in
     match s_rest s with
     | SE a0 a1 t g :: r =>
-        let '(cm, g', d') := d_line_end OPS (s_d s) semi g (Some a0) in
-        Ok cm {| s_cur := Some (a0, t); s_rest := r; s_mark := s_rest s; s_term := s_term s;
+        let '(c', g', d') := d_line_end OPS (s_d s) semi g (Some a0) c in
+        Ok c' {| s_cur := Some (a0, t); s_rest := r; s_mark := s_rest s; s_term := s_term s;
                  s_spos := a1; s_lp := s_lp s; s_ln := s_ln s;
                  s_d := d_next OPS d' g' (Some a0); s_started := true |}
     | [] =>
         match s_term s with
         | TEof a g =>
-            let '(cm, g', d') := d_line_end OPS (s_d s) semi g None in
-            Ok cm {| s_cur := None; s_rest := []; s_mark := []; s_term := s_term s;
+            let '(c', g', d') := d_line_end OPS (s_d s) semi g None c in
+            Ok c' {| s_cur := None; s_rest := []; s_mark := []; s_term := s_term s;
                      s_spos := a; s_lp := s_lp s; s_ln := s_ln s;
                      s_d := d_next OPS d' g' None; s_started := true |}
         | TErr e g =>
@@ -687,12 +729,9 @@ Fixpoint struct_loop (fuel : nat) (acc : list nodeT) (s : pstate) : res (list no
       if cur_is s (KOp OBraceRight) then Ok acc s
       else
         let* (field, s1) := field_decl s in
-        let* (cm, s2) := line_end_comment s1 in
-        let field' :=
-          match cm with
-          | Some c => set_docs field (map (fun d => c_push OPS d c) (n_docs field))
-          | None => field
-          end in
+        let c0 := match n_docs field with c :: _ => c | [] => c_empty OPS end in
+        let* (c1, s2) := line_end_comment c0 s1 in
+        let field' := set_docs field [c1] in
         let* (_, s3) := skipped (KOp OSemiColon) s2 in
         struct_loop f (acc ++ [field']) s3
   end.
@@ -1015,19 +1054,19 @@ Definition chan_dir (n : nodeT) : nat :=
   match n_ats n with ADir d :: _ => d | _ => 0 end.
 
 (* reset_chan_arrow(pos, typ): [typ] is a TypeChannel node *)
-Fixpoint reset_chan_arrow (s : pstate) (pos : A) (typ : nodeT) : nodeT + perr :=
+Fixpoint reset_chan_arrow (pos : A) (typ : nodeT) : nodeT + perr :=
   match typ with
   | Nd t ps ats d ks =>
       let p0 := nth 0 ps pos in
       let p1 := nth 1 ps pos in
-      match chan_dir typ with
+      match (match ats with ADir dir :: _ => dir | _ => 0 end) with
       | 2 => inr (PUnexpected p1 (Some (TOperator OArrow)) 71)
       | 0 => inl (Nd t [p0; pos] [ADir 2] d ks)
       | _ =>
           match ks with
           | inner :: rest =>
               if is_tag GTypeChannel inner then
-                match reset_chan_arrow s p1 inner with
+                match reset_chan_arrow p1 inner with
                 | inl inner' => inl (Nd t [p0; pos] [ADir 2] d (inner' :: rest))
                 | inr e => inr e
                 end
@@ -1040,25 +1079,25 @@ Fixpoint reset_chan_arrow (s : pstate) (pos : A) (typ : nodeT) : nodeT + perr :=
 Definition unary_body (s : pstate) : res nodeT :=
   match s_cur s with
   | Some (pos, TOperator op) =>
-      match op with
-      | OStar | OAdd | OSub | ONot | OXor | OTiled =>
+      match classify_unary op with
+      | UCPlain =>
           let* (_, s1) := next s in
           let* (x, s2) := k_unary self s1 in
           Ok (n_operation pos op x None) s2
-      | OAnd =>
+      | UCAnd =>
           let* (_, s1) := next s in
           let* (x, s2) := k_unary self s1 in
           Ok (n_operation pos op (unparen x) None) s2
-      | OArrow =>
+      | UCArrow =>
           let* (_, s1) := next s in
           let* (x, s2) := k_unary self s1 in
           if is_tag GTypeChannel x then
-            match reset_chan_arrow s2 pos x with
+            match reset_chan_arrow pos x with
             | inl t => Ok t s2
             | inr e => Err e s2
             end
           else Ok (n_operation pos op x None) s2
-      | _ => primary_expression None s
+      | UCNone => primary_expression None s
       end
   | _ => primary_expression None s
   end.
@@ -1488,18 +1527,19 @@ Definition op_of (e : nodeT) : option operator :=
 Fixpoint extract (e : nodeT) (force : bool) : option (option nodeT * option nodeT) :=
   match e with
   | Nd t ps ats d ks =>
+      let e0 := Nd t ps ats d ks in
       match t with
-      | GIdent => Some (Some e, None)
+      | GIdent => Some (Some e0, None)
       | GOperation =>
           match ks with
           | x :: y :: _ =>
-              if is_tag GNone y then Some (None, Some e)
+              if is_tag GNone y then Some (None, Some e0)
               else
-                match op_of e with
+                match (match ats with AOp o :: _ => Some o | _ => None end) with
                 | Some OStar =>
                     if is_tag GIdent x && (force || is_type_elem y)
                     then Some (Some x, Some (Nd t ps ats d [y; nnone]))
-                    else Some (None, Some e)
+                    else Some (None, Some e0)
                 | Some OOr =>
                     match extract x (force || is_type_elem y) with
                     | Some (Some name, Some lhs) => Some (Some name, Some (Nd t ps ats d [lhs; y]))
@@ -1508,9 +1548,9 @@ Fixpoint extract (e : nodeT) (force : bool) : option (option nodeT * option node
                     | Some (None, None) => None
                     | None => None
                     end
-                | _ => Some (None, Some e)
+                | _ => Some (None, Some e0)
                 end
-          | _ => Some (None, Some e)
+          | _ => Some (None, Some e0)
           end
       | GCall =>
           match ks with
@@ -1520,13 +1560,13 @@ Fixpoint extract (e : nodeT) (force : bool) : option (option nodeT * option node
                 | [arg0] =>
                     if is_tag GNone dots && (force || is_type_elem arg0)
                     then Some (Some func, Some arg0)
-                    else Some (None, Some e)
-                | _ => Some (None, Some e)
+                    else Some (None, Some e0)
+                | _ => Some (None, Some e0)
                 end
-              else Some (None, Some e)
-          | _ => Some (None, Some e)
+              else Some (None, Some e0)
+          | _ => Some (None, Some e0)
           end
-      | _ => Some (None, Some e)
+      | _ => Some (None, Some e0)
       end
   end.
 
@@ -1688,33 +1728,25 @@ Definition stmt_body (s : pstate) : res nodeT :=
   match s_cur s with
   | None => Err (else_error s 128) s
   | Some (pos, tok) =>
-      let simple :=
-        let* (st, s1) := parse_simple_stmt s in
-        let* (_, s2) := skipped (KOp OSemiColon) s1 in Ok st s2 in
-      match tok with
-      | TLiteral _ _ => simple
-      | TKeyword KFunc | TKeyword KStruct | TKeyword KMap | TKeyword KChan
-      | TKeyword KInterface => simple
-      | TOperator OAdd | TOperator OSub | TOperator OStar | TOperator OXor | TOperator OArrow
-      | TOperator ONot | TOperator OParenLeft | TOperator OBarackLeft => simple
-      | TKeyword KVar => let* (d, s1) := parse_decl SKVar s in Ok (mk GDeclStmt [] [] [d]) s1
-      | TKeyword KType => let* (d, s1) := parse_decl SKType s in Ok (mk GDeclStmt [] [] [d]) s1
-      | TKeyword KConst => let* (d, s1) := parse_decl SKConst s in Ok (mk GDeclStmt [] [] [d]) s1
-      | TOperator OBraceLeft => k_block self s
-      | TKeyword KGo => parse_go_defer true s
-      | TKeyword KDefer => parse_go_defer false s
-      | TKeyword KReturn => parse_return_stmt s
-      | TKeyword KIf => k_if self s
-      | TKeyword KSwitch => parse_switch_stmt s
-      | TKeyword KSelect => parse_select_stmt s
-      | TKeyword KFor => parse_for_stmt s
-      | TOperator OSemiColon => let* (_, s1) := next s in Ok (mk GEmpty [pos] [] []) s1
-      | TOperator OBraceRight => Ok (mk GEmpty [pos] [] []) s
-      | TKeyword KBreak => parse_branch_stmt KBreak s
-      | TKeyword KFallThrough => parse_branch_stmt KFallThrough s
-      | TKeyword KContinue => parse_branch_stmt KContinue s
-      | TKeyword KGoto => parse_branch_stmt KGoto s
-      | _ => Err (else_error_at pos 129) s
+      match classify_stmt tok with
+      | SCSimple =>
+          let* (st, s1) := parse_simple_stmt s in
+          let* (_, s2) := skipped (KOp OSemiColon) s1 in Ok st s2
+      | SCVar => let* (d, s1) := parse_decl SKVar s in Ok (mk GDeclStmt [] [] [d]) s1
+      | SCType => let* (d, s1) := parse_decl SKType s in Ok (mk GDeclStmt [] [] [d]) s1
+      | SCConst => let* (d, s1) := parse_decl SKConst s in Ok (mk GDeclStmt [] [] [d]) s1
+      | SCBlock => k_block self s
+      | SCGo => parse_go_defer true s
+      | SCDefer => parse_go_defer false s
+      | SCReturn => parse_return_stmt s
+      | SCIf => k_if self s
+      | SCSwitch => parse_switch_stmt s
+      | SCSelect => parse_select_stmt s
+      | SCFor => parse_for_stmt s
+      | SCSemi => let* (_, s1) := next s in Ok (mk GEmpty [pos] [] []) s1
+      | SCBraceRight => Ok (mk GEmpty [pos] [] []) s
+      | SCBranch key => parse_branch_stmt key s
+      | SCOther => Err (else_error_at pos 129) s
       end
   end.
 
